@@ -15,10 +15,14 @@ OWNED = {'outcome': 'outcome', 'false_pass': 'false PASS', 'executor_crash': 'ex
 def families(tier):
   if tier == 'quick':
     return [('ladder', execlib.fam_ladder(tier)),
-            ('structure3', execlib.fam_structure(3, 'PQUG', 'CFXES'))]
+            ('structure3', execlib.fam_structure(3, 'PQUG', 'CFXES')),
+            # a STOP / FAIL_SUBTEST checkpoint or a branch that does not fire turns into a false PASS
+            ('branches2', execlib.fam_branches(2, range(8))),
+            ('checkpoint-context', execlib.fam_checkpoint_context())]
   return [('ladder', execlib.fam_ladder(tier)),
           ('structure4', execlib.fam_structure(4, 'PQUG', 'CFXES')),
-          ('branches3', execlib.fam_branches(3, range(4))),
+          ('branches3', execlib.fam_branches(3, range(8))),
+          ('checkpoint-context', execlib.fam_checkpoint_context()),
           ('options', execlib.fam_options(tier)),
           ('table', execlib.fam_table(tier))]
 
